@@ -94,6 +94,7 @@ Addressed(op, u, a) ==
   CASE op = "deltable"  -> {x \in Tups : TabOf(x) = a}
     [] op = "runexpiry" -> ttl
     [] op = "keys"      -> {}
+    [] op = "limit"     -> {}
     [] OTHER            -> {u}
 
 Next1(u) == IF u < NTup THEN u + 1 ELSE u     \* the neighbour in encoded-key order (mutants)
@@ -103,7 +104,7 @@ After(s, op, u, a, b) ==
          [x \in Tups |-> IF TabOf(x) = a \/ (Mut = "deltable-prefix" /\ TabOf(x) = a + 1)
                          THEN <<>> ELSE s[x]]
     [] op = "runexpiry" -> [x \in Tups |-> IF x \in ttl THEN <<>> ELSE s[x]]
-    [] op = "keys"      -> s
+    [] op \in {"keys", "limit"} -> s
     [] OTHER ->
          [x \in Tups |-> IF x = u THEN Effect(s[u], op, a, b)[1]
                          ELSE IF Mut = "clear-neighbour" /\ op = "clear" /\ x = Next1(u) THEN <<>>
@@ -111,7 +112,7 @@ After(s, op, u, a, b) ==
                          ELSE s[x]]
 
 ReplyOf(s, op, u, a, b) ==
-  CASE op \in {"deltable", "runexpiry", "keys"} -> 0
+  CASE op \in {"deltable", "runexpiry", "keys", "limit"} -> 0
     [] OTHER -> Effect(s[u], op, a, b)[2]
 
 TtlAfter(s, op, u) ==
@@ -122,6 +123,28 @@ TtlAfter(s, op, u) ==
 Do(op, u, a, b) ==
   /\ st'  = After(st, op, u, a, b)
   /\ ttl' = TtlAfter(st, op, u)
+
+-------------------------------------------------------------------------------
+(* Limit probes.  The documented size limits (doc/user-guide.md: values up to 8 MB; *)
+(* common/limit.go: "max key size" 10240, "subkey length for hash/set/zset" 10240,  *)
+(* "max value size" 8 MiB) are constants of the model.  A command whose key,        *)
+(* sub-key or value is over its limit must be refused and change nothing (a key of  *)
+(* 65536+n bytes would alias an n-byte key behind the 16-bit length prefixes); at   *)
+(* or below the limit it must be accepted.  The driver removes what an accepted     *)
+(* probe wrote (on a key outside the pools) before the dump is taken.               *)
+MaxKeyLen == 10240
+MaxSubLen == 10240
+MaxValLen == 8388608
+\* kl = length of the key without its table, kf = length of the whole "table:key": the code
+\* applies the key limit to the one or the other depending on the command, the documentation
+\* does not say which - over the limit by both readings must be refused, within it by both
+\* readings must be accepted, in between either answer is taken as observed
+MustReject(kl, sl, vl)  == kl > MaxKeyLen \/ sl > MaxSubLen \/ vl > MaxValLen \/ kl = 0
+MustAccept(kf, sl, vl)  == kf <= MaxKeyLen /\ sl <= MaxSubLen /\ vl <= MaxValLen
+LimitReply(kl, kf, sl, vl, observed) ==
+  IF MustReject(kl, sl, vl) THEN -998
+  ELSE IF MustAccept(kf, sl, vl) THEN 0
+  ELSE IF observed = 0 THEN 0 ELSE -998
 
 -------------------------------------------------------------------------------
 TypeOK == /\ DOMAIN st = Tups
